@@ -57,7 +57,15 @@ impl Write for FaultWriter {
                 let room = b.saturating_sub(self.accepted);
                 if room == 0 {
                     self.failed = true;
-                    return Err(std::io::Error::new(std::io::ErrorKind::Other, "injected fault"));
+                    // the way the writer fails rotates with the offset: an error of one of several kinds, or a
+                    // refusal to take any more bytes (`Ok(0)`, which `write_all` turns into `WriteZero`)
+                    use std::io::ErrorKind::*;
+                    const KINDS: [std::io::ErrorKind; 8] =
+                        [Other, OutOfMemory, WouldBlock, TimedOut, BrokenPipe, PermissionDenied, InvalidInput, ConnectionReset];
+                    if b % 9 == 8 {
+                        return Ok(0);
+                    }
+                    return Err(std::io::Error::new(KINDS[b % 8], "injected fault"));
                 }
                 let n = room.min(buf.len());
                 self.accepted += n;
